@@ -5,6 +5,8 @@ package main
 import (
 	"fmt"
 	"go/constant"
+	"go/token"
+	"go/types"
 	"os"
 	"path/filepath"
 	"regexp"
@@ -516,5 +518,74 @@ func (m *Model) checkErrorPageTemplate(s *Sink, rule string) {
 		s.Undecided(rule, key, rel, "the page mentions none of message/path/line: with debug mode on the body must contain them")
 	default:
 		s.OK(rule, key, rel, "%d expressions mention message/path/line, all inside the true branch of @if(debugMode)", nExpr)
+	}
+}
+
+// RunConfigSource: what Response consults when a render fails — the debug flag and the error page — is the current
+// configuration: every read of Config.DebugMode / Config.ErrorPagePath in the functions of the root package that
+// Response reaches is rooted in the package-level configuration (directly, or through a parameter every caller fills
+// from it), not in a copy kept on the Template. A copy goes stale at the next Configure, and the built-in page (which
+// reads the package-level value) then disagrees with the choice of page.
+func (m *Model) RunConfigSource(s *Sink, rule string) {
+	resp := m.Method("textwire", "Template", "Response")
+	confT := m.namedType("config", "Config")
+	if resp == nil || confT == nil {
+		s.Undecided(rule, "textwire.(*Template).Response|configuration source", "-", "Response / config.Config not found")
+		return
+	}
+	n, bad := 0, ""
+	for _, fn := range m.reachableFns([]*ssa.Function{resp}) {
+		if fn.Blocks == nil || shortPkg(fnPkgPath(fn)) != "textwire" {
+			continue
+		}
+		for _, b := range fn.Blocks {
+			for _, in := range b.Instrs {
+				fa, ok := in.(*ssa.FieldAddr)
+				if !ok {
+					continue
+				}
+				nt := ptrNamed(fa.X.Type())
+				if nt == nil || !types.Identical(nt, confT) {
+					continue
+				}
+				if fname := fieldName(fa.X.Type(), fa.Field); fname != "DebugMode" && fname != "ErrorPagePath" {
+					continue
+				}
+				isRead := false
+				if fa.Referrers() != nil {
+					for _, r := range *fa.Referrers() {
+						if ld, isLd := r.(*ssa.UnOp); isLd && ld.Op == token.MUL {
+							isRead = true
+						}
+					}
+				}
+				if !isRead {
+					continue
+				}
+				n++
+				for _, base := range m.resolveUp(fa.X, resp, 0) {
+					root, _, okP := pathOf(base)
+					g, isG := root.(*ssa.Global)
+					if ld, isLd := base.(*ssa.UnOp); isLd && !okP {
+						g, isG = ld.X.(*ssa.Global)
+					}
+					if gg, isGG := base.(*ssa.Global); isGG {
+						g, isG = gg, true
+					}
+					if (!isG || g == nil) && bad == "" {
+						bad = fmt.Sprintf("%s reads %s of %s at %s", fnKey(fn), fieldName(fa.X.Type(), fa.Field), valueDesc(base), m.InstrPos(fa))
+					}
+				}
+			}
+		}
+	}
+	key := "textwire.(*Template).Response|debug flag and error page are read from the current configuration"
+	switch {
+	case n == 0:
+		s.Undecided(rule, key, m.Pos(resp.Pos()), "no read of Config.DebugMode / Config.ErrorPagePath found on the path of Response")
+	case bad != "":
+		s.Violation(rule, key, m.Pos(resp.Pos()), "%s: a configuration that is not the package-level one (a copy taken when the templates were loaded) goes stale at the next Configure — the custom page is chosen although debugging is on, or the built-in page although a custom one is set, while the built-in page itself reads the current flag", bad)
+	default:
+		s.OK(rule, key, m.Pos(resp.Pos()), "%d reads, all rooted in the package-level configuration", n)
 	}
 }
